@@ -302,7 +302,8 @@ def concurrent_pass(ctx, vh, cases, failed_alone):
             seen.setdefault(f["pred"], f)
     for pred, f in sorted(seen.items()):
         c = batch[f["case"]]
-        alone = execute(ctx, vh, [dict(c, id=0)] * 1, "paralone")
+        # 12 executions alone: an output that differs between executions (map iteration order) is not a concurrency matter
+        alone = execute(ctx, vh, [dict(c, id=0)] * 12, "paralone")
         af, _ = judge(ctx, alone, "paralone")
         if af:
             continue        # fails alone as well (map-order dependent): the sequential pass is the place for it
